@@ -401,7 +401,7 @@ def _one(op, fields_impl, fields_model_from):
     lines = [l for l in p.stdout.split("\n") if l]
     il = lines[-1] if lines else "MISSING"
     mfields = fields_model_from(il)
-    drv = os.path.join(C.LEAN, ".lake", "build", "bin", "vdriver")
+    drv = C.vdriver_exe()
     q = subprocess.run([drv], input="r\t" + op + "\t" + "\t".join(mfields) + "\n", stdout=subprocess.PIPE,
                        stderr=subprocess.STDOUT, text=True, timeout=120)
     ml = q.stdout.strip("\n")
